@@ -12,7 +12,7 @@ DEDUCTIVE = ['vsg.rules.token_case.token_case._fix_violation', 'vsg.rules.whites
 def run():
     c = Check("C03", "other")
     c.engine = Engine()
-    c.deductive(sorted(set(DEDUCTIVE + _pipeline.fix_bases(c.engine))))
+    c.deductive(sorted(set(DEDUCTIVE + _pipeline.fix_bases(c.engine))), _pipeline.fix_base_search(c.engine, c.seed))
     _pipeline.pipeline_part(c, "C03")
     from bounded import metadata
     from pyvc.checklib import Finding
